@@ -76,7 +76,10 @@ def sibling(ctx) -> None:
         if not supers and k != 'visit_table':
             ctx.fail('R-SIBLING', minfo, f'the matcher overrides {k} without ever descending (no super().{k}(source)): the tables below a {k[6:]} are never checked against the advertised sources', mfn, key=f'{k}:no-descent')
             continue
-        skips = bool(supers) and any(any(t in ('self and source not in self._sources', 'source not in self._sources') and pol for t, pol in cfg.cguards(c, mfn)) for c in supers)
+        unadvertised = cfg.cg(('source not in self._sources', True))[0]
+        skips = bool(supers) and any(unadvertised in cfg.cguards(c, mfn) for c in supers)
+        if skips and any(g not in (unadvertised, ('self', True)) for c in supers for g in cfg.cguards(c, mfn)):
+            skips = False
         if supers and not skips:
             # any other guard in front of the descent must be recognised, otherwise coverage is undecided
             odd = [g for c in supers for g in cfg.cguards(c, mfn)]
@@ -84,7 +87,7 @@ def sibling(ctx) -> None:
                 ctx.fail('R-SIBLING', minfo, f'the descent into {k[6:]} is guarded by an unrecognised condition {odd}: an unadvertised source must be descended into (until a table vetoes), an advertised one may be skipped', mfn, key=f'{k}:guard')
         vetoes = any(isinstance(s, ast.Assign) and core.src(s.targets[0]) == 'self._matches' and core.is_const(s.value, False) for s in ast.walk(mfn))
         if k == 'visit_table':
-            ok_veto = vetoes and all(cfg.cguards(s, mfn) == [('source not in self._sources', True)] for s in ast.walk(mfn) if isinstance(s, ast.Assign) and core.src(s.targets[0]) == 'self._matches')
+            ok_veto = vetoes and all(cfg.cguards(s, mfn) == cfg.cg(('source not in self._sources', True)) for s in ast.walk(mfn) if isinstance(s, ast.Assign) and core.src(s.targets[0]) == 'self._matches')
             ctx.check(ok_veto, 'R-SIBLING', minfo, 'a table outside the advertised sources vetoes the match', mfn, key='visit_table:veto')
             ctx.check(resolves_unconditionally, 'R-SIBLING', pinfo, 'the parser resolves a table through the source mapping unconditionally', pfn, key='visit_table:resolve')
             continue
